@@ -110,6 +110,11 @@ End ==
                \cup Tag((ev.ncells > 0 /\ ev.outcome = "completed") => (K - ev.ts1 \in {-1, 0, 1}), "C19_KBound")
                \cup Tag((ev.ncells > 0 /\ ev.outcome = "completed") => ev.T_reached, "C19_RunsUntilT")
                \cup Tag(\A i \in 1..Len(ev.parsed) : ev.parsed[i].ok, "C19_FilesParse")
+               \* what the files themselves say (cell_id array of the cell-data file, runs of face_cell_id in the face-data file)
+               \* is the population that was alive when the pair was written
+               \cup Tag(\A i \in 1..Len(ev.parsed) : ev.parsed[i].ok =>
+                           \A j \in 1..Len(Log) : (Log[j].e = "mesh_written" /\ Log[j].n = ev.parsed[i].n) =>
+                               (ev.parsed[i].cell_ids = Log[j].ids /\ ev.parsed[i].face_ids = Log[j].ids), "C19_FileContentIsAliveCells")
                \cup Tag(st.headers = 1, "C19_OneHeader")
                \cup Tag(st.cols_found /\ \A r \in 1..Len(st.rows) : st.rows[r].nfields = st.nfields, "C19_FieldsMatchHeader")
                \cup Tag(st.nrows = st.nexpected /\ \A r \in 1..Len(st.rows) : st.rows[r].match /\ st.rows[r].iter = st.rows[r].expected_iter, "C19_StatsRows")
@@ -122,6 +127,7 @@ TSpec == TInit /\ [][TNext]_tvars
 \* non-empty tag set is also printed in full by ReportAll (always TRUE), which is what the harness reads.
 ReportAll == tags = {} \/ PrintT(<<"TAGS", l, tags>>)
 NoTag(t) == t \notin tags
+I_C19_FileContentIsAliveCells == NoTag("C19_FileContentIsAliveCells")
 I_C08_LidIsIndex == NoTag("C08_LidIsIndex")
 I_C08_IdsUnique == NoTag("C08_IdsUnique")
 I_C08_IdsBelowCounter == NoTag("C08_IdsBelowCounter")
